@@ -1541,9 +1541,13 @@ def observe(dc, level="full"):
             o["units"][key] = comp.units if comp.units not in ("",) else None
             if kind == "categorical":
                 o["cat"][key] = (np.array(comp.labels), np.array(comp.categories))
+        def _axis_of(c):
+            try:
+                return getattr(d.get_component(c), "axis", None)
+            except Exception:
+                return None
         o["coord_ids"] = ([(c.label, getattr(c, "axis", None), [i for i, x in enumerate(cids) if x is c]) for c in d.pixel_component_ids],
-                          [(c.label, getattr(d.get_component(c), "axis", None), [i for i, x in enumerate(cids) if x is c])
-                           for c in d.world_component_ids])
+                          [(c.label, _axis_of(c), [i for i, x in enumerate(cids) if x is c]) for c in d.world_component_ids])
         o["role_counts"] = (len(d.pixel_component_ids), len(d.world_component_ids), len(d.main_components),
                             len(d.derived_components))
         for k, v in d.meta.items():
